@@ -172,7 +172,7 @@ impl Property for C09 {
                 name: "built",
                 cases: tier.pick(8_000, 200_000),
                 strat: Arc::new(|| {
-                    (config_any(CfgParams { max_files: 8, sizes: size_small(), comp: comp_mixed(), sign_prob: 0.2, file_kinds: true, force_large_prob: 0.15, rich_meta: true }), prop_oneof![2 => Just(vec![]), 1 => proptest::collection::vec(op_cheap(), 1..4)])
+                    (prop_oneof![7 => config_any(CfgParams { max_files: 8, sizes: size_small(), comp: comp_mixed(), sign_prob: 0.2, file_kinds: true, force_large_prob: 0.15, rich_meta: true }), 1 => config_any(CfgParams { max_files: 3, sizes: super::c08::big_sizes(), comp: comp_fast(), sign_prob: 0.0, file_kinds: false, force_large_prob: 0.1, rich_meta: false })], prop_oneof![2 => Just(vec![]), 1 => proptest::collection::vec(op_cheap(), 1..4)])
                         .prop_map(|(mut cfg, ops)| {
                             if cfg.signer == Some(1) {
                                 cfg.signer = Some(3);
